@@ -56,75 +56,83 @@ def extract_obligations(chk, ex_mod, tier, rng):
     temps = [0.0, 100.0, 250.0, 300.0]
     press = [0.0, 10.0, 25.0]
     for mode in ("temperature", "pressure"):
-        name = "extract[-%s y, y symbolic]" % ("T" if mode == "temperature" else "P")
-        ctx = new_context()
-        grid = temps if mode == "temperature" else press
-        y = ctx.var("y", lo=Fraction(-50), hi=Fraction(int(max(grid)) + 50))
-        tables = {}
-        for var in ("c11s", "bm"):
-            tables[var] = sym_table(ctx, var, temps, press)
+        for variant in ("one grid", "each variable tabulated on its own grid along the selected axis"):
+            name = "extract[-%s y, y symbolic, %s]" % ("T" if mode == "temperature" else "P", variant)
+            ctx = new_context()
+            grid = temps if mode == "temperature" else press
+            # tables of two runs with different steps in one directory: the second variable's grid along the selected axis is another one
+            grid2 = grid if variant == "one grid" else [g + (35.0 if mode == "temperature" else 4.0) * (i + 1) for i, g in enumerate(grid)]
+            grids = {"c11s": grid, "bm": grid2}
+            y = ctx.var("y", lo=Fraction(-50), hi=Fraction(int(max(grid2)) + 50))
+            tables = {}
+            for var in ("c11s", "bm"):
+                tables[var] = sym_table(ctx, var, grids[var] if mode == "temperature" else temps, press if mode == "temperature" else grids[var])
 
-        def fn():
-            with Capture() as cap, patched((ex_mod, {"load_data": lambda v: tables[v][0].copy()})):
-                kw = dict(variables="c11s,bm", hide_header=False, temperature=None, pressure=None)
-                kw[mode] = y
-                ex_mod.main.callback(**kw)
-            return cap.df
-        ex = X.Explorer(max_paths=200, name=name, decision_timeout_ms=4000)
-        t0 = time.time()
-        try:
-            paths = ex.run(fn)
-        except (SymError, X.PathBudgetExceeded) as e:
-            chk.inconclusive(name, str(e))
-            continue
-        ok = True
-        rows_seen = set()
-        for p in paths:
-            if p.exception is not None:
-                ok = False
-                replay_extract(chk, ex_mod, mode, None, "raises %s: %s" % (type(p.exception).__name__, p.exception))
-                break
-            out = p.result
-            other = press if mode == "temperature" else temps
-            if [float(i) for i in out.index] != [float(v) for v in other] or list(out.columns) != ["c11s", "bm"]:
-                ok = False
-                replay_extract(chk, ex_mod, mode, None, "output is not labelled by the other coordinate")
-                break
-            # which grid line was selected?
-            sel = None
-            for r in range(len(grid)):
-                want = tables["c11s"][1][r, :] if mode == "temperature" else tables["c11s"][1][:, r]
-                if all(Sym.of(a).same(b) for a, b in zip(out["c11s"].tolist(), want)):
-                    sel = r
-            if sel is None:
-                ok = False
-                replay_extract(chk, ex_mod, mode, None, "output column is not a row/column of the table")
-                break
-            want_bm = tables["bm"][1][sel, :] if mode == "temperature" else tables["bm"][1][:, sel]
-            if not all(Sym.of(a).same(b) for a, b in zip(out["bm"].tolist(), want_bm)):
-                ok = False
-                replay_extract(chk, ex_mod, mode, None, "variables are taken from different grid lines")
-                break
-            rows_seen.add(sel)
-            # obligation: on this path the selected grid value is a nearest one
-            pc = p.path_condition()
-            near = X.cond_and(*[X.cond_or(
-                X.cond_and(X.cond_abs_le(y - grid[sel], Sym.of(Fraction(grid[k])) - y)),
-                X.cond_and(X.cond_abs_le(y - grid[sel], y - Sym.of(Fraction(grid[k]))))) for k in range(len(grid)) if k != sel])
-            enc = Z.Encoder()
-            cons = [X._cond_z3(c, enc) for c in pc] + [X._cond_z3(X.cond_not(near), enc)] + enc.assumptions() + enc.side_conditions()
-            v, env = Z.check(cons, name=name + ":selected-is-nearest", enc=enc, timeout_ms=10000)
-            if v != "unsat":
-                ok = False
-                if v == "sat":
-                    replay_extract(chk, ex_mod, mode, env.get("y"), "row %s selected although another grid value is nearer" % grid[sel])
-                else:
-                    chk.inconclusive(name, "unknown")
-                break
-        chk.obligation(name + ": selected line is a nearest grid value; output = that line of every variable, labelled by the other coordinate "
-                       "[%d paths, lines reached %s]" % (len(paths), sorted(rows_seen)), "unsat" if ok else "sat", seconds=round(time.time() - t0, 2),
-                       kind="all-paths", logic="QF_LRA")
-        chk.witness(name + ":every-grid-line-reachable", "sat" if (not ok or rows_seen == set(range(len(grid)))) else "unsat")
+            def fn():
+                with Capture() as cap, patched((ex_mod, {"load_data": lambda v: tables[v][0].copy()})):
+                    kw = dict(variables="c11s,bm", hide_header=False, temperature=None, pressure=None)
+                    kw[mode] = y
+                    ex_mod.main.callback(**kw)
+                return cap.df
+            ex = X.Explorer(max_paths=400, name=name, decision_timeout_ms=4000)
+            t0 = time.time()
+            try:
+                paths = ex.run(fn)
+            except (SymError, X.PathBudgetExceeded) as e:
+                chk.inconclusive(name, str(e))
+                continue
+            ok = True
+            rows_seen = set()
+            for p in paths:
+                if p.exception is not None:
+                    ok = False
+                    replay_extract(chk, ex_mod, mode, None, "raises %s: %s" % (type(p.exception).__name__, p.exception), own_grid=(variant != "one grid"))
+                    break
+                out = p.result
+                other = press if mode == "temperature" else temps
+                if [float(i) for i in out.index] != [float(v) for v in other] or list(out.columns) != ["c11s", "bm"]:
+                    ok = False
+                    replay_extract(chk, ex_mod, mode, None, "output is not labelled by the other coordinate", own_grid=(variant != "one grid"))
+                    break
+                sels = {}
+                for var in ("c11s", "bm"):
+                    for r in range(len(grids[var])):
+                        want = tables[var][1][r, :] if mode == "temperature" else tables[var][1][:, r]
+                        if all(Sym.of(a).same(b) for a, b in zip(out[var].tolist(), want)):
+                            sels[var] = r
+                if len(sels) != 2:
+                    ok = False
+                    replay_extract(chk, ex_mod, mode, None, "an output column is not a row/column of that variable's table", own_grid=(variant != "one grid"))
+                    break
+                if variant == "one grid" and sels["c11s"] != sels["bm"]:
+                    ok = False
+                    replay_extract(chk, ex_mod, mode, None, "variables are taken from different grid lines")
+                    break
+                rows_seen.add(sels["c11s"])
+                # obligation: on this path each variable's selected grid value is a nearest one of its own table
+                pc = p.path_condition()
+                for var in ("c11s", "bm"):
+                    g, sel = grids[var], sels[var]
+                    near = X.cond_and(*[X.cond_or(
+                        X.cond_and(X.cond_abs_le(y - g[sel], Sym.of(Fraction(g[k])) - y)),
+                        X.cond_and(X.cond_abs_le(y - g[sel], y - Sym.of(Fraction(g[k]))))) for k in range(len(g)) if k != sel])
+                    enc = Z.Encoder()
+                    cons = [X._cond_z3(c, enc) for c in pc] + [X._cond_z3(X.cond_not(near), enc)] + enc.assumptions() + enc.side_conditions()
+                    v, env = Z.check(cons, name=name + ":selected-is-nearest", enc=enc, timeout_ms=10000)
+                    if v != "unsat":
+                        ok = False
+                        if v == "sat":
+                            replay_extract(chk, ex_mod, mode, env.get("y"), "line %s of %s selected although another grid value is nearer" % (g[sel], var),
+                                           own_grid=(variant != "one grid"))
+                        else:
+                            chk.inconclusive(name, "unknown")
+                        break
+                if not ok:
+                    break
+            chk.obligation(name + ": selected line is a nearest grid value; output = that line of every variable, labelled by the other coordinate "
+                           "[%d paths, lines reached %s]" % (len(paths), sorted(rows_seen)), "unsat" if ok else "sat", seconds=round(time.time() - t0, 2),
+                           kind="all-paths", logic="QF_LRA")
+            chk.witness(name + ":every-grid-line-reachable", "sat" if (not ok or rows_seen == set(range(len(grid)))) else "unsat")
     chk.sample(dict(command="extract -v c11s,bm -T y", temperatures=temps, pressures=press, y="symbolic in (-50, 350)"))
 
 
@@ -135,8 +143,58 @@ def write_tables(tmp, temps, press, fn):
     return Zv
 
 
-def replay_extract(chk, ex_mod, mode, yval, what):
+def replay_extract_two(chk, ex_mod, mode, yval):
+    """Two variables whose tables (of two runs with different steps) differ along the selected axis: each column of the output must be the
+    nearest line of its own table.  Returns True when a violation was reported."""
     from click.testing import CliRunner
+    temps = [0.0, 100.0, 250.0, 300.0]
+    press = [0.0, 10.0, 25.0]
+    grid = temps if mode == "temperature" else press
+    grid2 = [g + (35.0 if mode == "temperature" else 4.0) * (i + 1) for i, g in enumerate(grid)]
+    fa = lambda t, p: 100 + 0.37 * t + 2.1 * p
+    fb = lambda t, p: 300 - 0.11 * t + 1.3 * p
+    tmp = tempfile.mkdtemp(prefix="c19two_")
+    cwd = os.getcwd()
+    try:
+        ta, pa = (grid, press) if mode == "temperature" else (temps, grid)
+        tb, pb = (grid2, press) if mode == "temperature" else (temps, grid2)
+        A = numpy.array([[fa(t, p) for p in pa] for t in ta])
+        B = numpy.array([[fb(t, p) for p in pb] for t in tb])
+        for nm, M, tt, pp in (("c11s", A, ta, pa), ("bm", B, tb, pb)):
+            with open(os.path.join(tmp, nm + "_tp_gpa.txt"), "w") as fp:
+                fp.write(pandas.DataFrame(M, index=tt, columns=pp).to_string(float_format=lambda x: "%.15e" % x))
+        os.chdir(tmp)
+        ys = ([yval] if yval is not None else []) + [g + d for g in grid2 for d in (-3.0, 2.0)] + [g + 1.0 for g in grid]
+        for yv in ys:
+            with warnings.catch_warnings():
+                warnings.simplefilter("ignore")
+                r = CliRunner().invoke(ex_mod.main, ["-v", "c11s,bm", "-T" if mode == "temperature" else "-P", str(yv)])
+            if r.exit_code != 0:
+                chk.violation("extract:raises[two grids]", "cij extract -v c11s,bm -%s %s fails for tables on different grids: %r" % ("T" if mode == "temperature" else "P", yv, r.exception), dict(y=yv))
+                return True
+            got = pandas.read_table(io.StringIO(r.output), sep=r"\s+", index_col=0)
+            for nm, M, g in (("c11s", A, grid), ("bm", B, grid2)):
+                d = sorted(abs(x - yv) for x in g)
+                if len(d) > 1 and abs(d[0] - d[1]) < 1e-9:
+                    continue
+                k = int(numpy.argmin([abs(x - yv) for x in g]))
+                want = M[k, :] if mode == "temperature" else M[:, k]
+                if len(got[nm]) != len(want) or not numpy.abs(got[nm].to_numpy() - want).max() <= 1e-9:
+                    chk.violation("extract:wrong-line[two grids,%s]" % mode, "cij extract -v c11s,bm -%s %s with the two tables on different grids %s / %s: column %s is %s, "
+                                  "the line of its table nearest to the request (%s) is %s" % ("T" if mode == "temperature" else "P", yv, g if nm == "c11s" else grid, grid2,
+                                                                                             nm, got[nm].tolist()[:3], g[k], want.tolist()[:3]), dict(y=yv, mode=mode))
+                    return True
+    finally:
+        os.chdir(cwd)
+        import shutil
+        shutil.rmtree(tmp, ignore_errors=True)
+    return False
+
+
+def replay_extract(chk, ex_mod, mode, yval, what, own_grid=False):
+    from click.testing import CliRunner
+    if own_grid and replay_extract_two(chk, ex_mod, mode, yval):
+        return
     temps = [0.0, 100.0, 250.0, 300.0]
     press = [0.0, 10.0, 25.0]
     tmp = tempfile.mkdtemp(prefix="c19_")
